@@ -184,12 +184,19 @@ def closure_then_wrap(c, s, clo, args, mk, idx):
             l = c.I.lin_of(s2, rv, rloc)
             if l is not None:
                 ex.append(((("v", idx), 0), l))
+        elif rloc is not None:
+            # a tuple / struct / enum handed back by the closure: its scalar leaves stay related to what they were computed from
+            for pth, leaf in int_leaves(rv):
+                if not leaf.is_const() and s2.leaf((rloc[0], rloc[1] + pth)) is not None:
+                    ex.append(((("v", idx), 0) + pth, LinForm.var((rloc[0], rloc[1] + pth))))
         c.I.write_place(s2, c.frame, c.term["dest"], mk(rv))
         dloc = c.I.resolve(s2, c.frame, c.term["dest"])
         if dloc is not None:
             for sub, l in ex:
                 if not l.is_const():
                     s2.cons.add_eq(LinForm.var((dloc[0], dloc[1] + sub)) - l)
+            if rloc is not None and not isinstance(rv, Int):
+                s2.relocate_guards(rloc, (dloc[0], dloc[1] + (("v", idx), 0)))
         c.I.finish_closure(s2, nf)
         c.results.append(s2)
 
